@@ -45,7 +45,21 @@ JudgeDamage(e) ==
      \cup If(dh = hdr \/ (~e.generic_ok /\ ~e.typed_ok), "C18:foreign-or-short-header-accepted")
      \cup If(dh # hdr \/ Len(e.damaged) < Len(e.msg) \/ e.generic_ok, "C18:intact-message-rejected")
 
-Judge(e) == [fail |-> IF e.ev = "so-write" THEN JudgeWrite(e) ELSE JudgeDamage(e), known |-> {}, drift |-> {}]
+(* Beyond C18: the same writer/reader with a caller-supplied header builder.  The Glue header is
+   03 00 followed by the 16 bytes of the schema UUID (crate documentation of GlueSchemaUuidHeader). *)
+JudgeGlue(e) ==
+  LET m == e.msg
+      P == IF Len(m) >= 18 THEN ParseAll(SubSeq(m, 19, Len(m)), e.s, Defs(e.s)) ELSE Fail("short", 0)
+  IN If(~e.panic, "C18:panic")
+     \cup If(e.res = "ok", "C18:good-write-failed")
+     \cup If(e.res # "ok" \/ (Len(m) >= 18 /\ SubSeq(m, 1, 18) = <<3, 0>> \o e.uuid), "C18:custom-header-not-emitted-as-built")
+     \cup If(e.res # "ok" \/ Len(m) < 18 \/ (P.ok /\ VEq(P.v, e.v)), "C18:message-is-not-header-then-exactly-this-datum")
+     \cup If(e.res # "ok" \/ (e.read_generic.ok /\ VEq(e.read_generic.v, e.v)), "C18:generic-reader-does-not-return-the-value")
+     \cup If(~e.foreign_ok, "C18:foreign-or-short-header-accepted")
+     \cup If(e.res # "ok" \/ e.returned = Len(m), "C18:returned-count-differs")
+
+Judge(e) == [fail |-> IF e.ev = "so-write" THEN JudgeWrite(e)
+                      ELSE IF e.ev = "so-glue" THEN JudgeGlue(e) ELSE JudgeDamage(e), known |-> {}, drift |-> {}]
 
 Init == l = 1
 Next == /\ l <= Len(Rec)
